@@ -543,11 +543,21 @@ def parse_db_protocol():
     pre = scan(inner[inner.index("open_index(&config)?;"):inner.index("if rebuild {")])
     blk = inner[inner.index("if rebuild {"):]
     reb = scan(blk)
-    need(re.search(r"if !in_memory \{\s*config\.write_meta\(\)\?;", blk), "db.rs: write_meta is no longer guarded by !in_memory only")
+    # the guard around the write of the metadata: which starts record the index as current
+    need(blk.count("config.write_meta()?;") == 1, "db.rs: write_meta is not called exactly once after a rebuild")
+    at = blk.index("config.write_meta()?;")
+    if re.search(r"if !in_memory \{\s*$", blk[:at]):
+        guard = "OnDiskOnly"
+    elif re.search(r"if config\.index_path\.is_dir\(\) \{\s*$", blk[:at]):
+        guard = "IfIndexDir"
+    elif blk[:at].count("{") - blk[:at].count("}") == 1 and re.search(r";\s*$", blk[:at]):
+        guard = "Always"                     # a plain statement of the rebuild block
+    else:
+        raise Fail("db.rs: the condition under which write_meta runs is not one the model knows")
     s2 = read("config.rs")
     need(re.search(r"pub fn write_meta\(&self\) -> Result<\(\)> \{\s*let (\w+) = fs::File::create\(&self\.meta_path\)\?;\s*serde_json::to_writer\(\1, &self\.meta\)\?;", s2), "config.rs: write_meta changed")
     need("config.meta.version = Some(config.this_version.to_owned());" in blk and ("config.meta.database_hash = Some(%s);" % mh.group(1)) in blk, "db.rs: the metadata written after a rebuild changed")
-    return idx, pre, reb
+    return idx, pre, reb, guard
 
 
 # --------------------------------------------------------------------------------------------------- db
@@ -822,7 +832,7 @@ def main():
     write_if_changed(os.path.join(GEN, "Tables.v"), "".join(o))
 
     # ---- DbSteps.v
-    idx_steps, pre_steps, reb_steps = parse_db_protocol()
+    idx_steps, pre_steps, reb_steps, meta_guard = parse_db_protocol()
 
     def steps(l):
         return "[" + "; ".join("CP %s" % a if n == "CP" else "Eff %s" % n for n, a in l) + "]"
@@ -846,6 +856,7 @@ def main():
     else:
         need(re.search(r"\.writer\(", dbs), "db.rs: no index writer constructor found")
     o.append("Definition writer_threads : nat := %d.\n" % threads)
+    o.append("(* the guard around config.write_meta() in the rebuild block *)\nDefinition meta_written_when : meta_guard := %s.\n" % meta_guard)
     write_if_changed(os.path.join(GEN, "DbSteps.v"), "".join(o))
 
     # ---- Shipped.v
